@@ -43,12 +43,17 @@ CHECKS = {
    design_ref="DESIGN.md §4 C18",
    note="Trusted: the harness's F2 rank oracle and tree traversal (self-tested), rand's distribution algorithms. Bounds: <=14 vertices, <=60 operations per history, <=300 annealer iterations; annealer temperatures > 0 and 0 < cooling < 1.",
    technique="deterministic simulation: seeded decider behind the Rng seam, reference-model (brute-force cut-rank) oracle after every step, shrinking + replay files"),
+ "C19": dict(
+   category="exploration",
+   text="Reproducibility of a seeded generator is a statement about different executions, i.e. exactly this technique's replay-determinism proof applied to the repo's own generators: the same (generator, parameters, seed) is built twice on fresh builders with the ambient-RNG and hash-order seams installed (any draw from rand::rng() or any randomised map during a seeded build is counted and is a violation deterministically, not with some probability), on a second OS thread, and for a fraction of runs in a fresh child process (other RandomState keys, ASLR, OS entropy), and the objects are compared structurally. The promises are then decided by independent oracles: parameter conformance, |<shift|C|0>|^2 = 1 exactly (gate simulator in Z[omega]/2^k), squared norm exactly 1 (ZX evaluator), Pauli-gadget structure.",
+   design_ref="DESIGN.md §4 C19",
+   note="Trusted: gate simulator and ZX evaluator (self-tested). Admissible parameters as listed in the evidence assumptions. Known finding recorded in known_findings.json: RandomCircuitBuilder panics for qubits(1).",
+   technique="deterministic simulation: cross-thread / cross-process replay diff with ambient-entropy seams counted, exact state-vector and ZX-evaluator oracles for the promises"),
 }
 
 PENDING = {
  "C03": "claimed by DESIGN.md (CLI clause) but its check is not built yet at this commit; not claimed until it is",
  "C06": "claimed by DESIGN.md but its check is not built yet at this commit; not claimed until it is",
- "C19": "claimed by DESIGN.md but its check is not built yet at this commit; not claimed until it is",
 }
 
 def main():
